@@ -28,6 +28,8 @@ def m_int(it, args, kw):
     if len(args) > 1 or kw:
         if deep_concrete(args) and deep_concrete(kw):
             return it.native(int, args, kw)
+        if isinstance(v, SStr) and len(args) == 2 and args[1] == 16 and v.z3() is not None:
+            return parse_int(it, v, base=16)
         raise Unsupported("int() with base on symbolic value")
     if is_z3(v):
         if z3.is_int(v):
@@ -46,9 +48,20 @@ def m_int(it, args, kw):
     return it.native(int, [v], {})
 
 
-def parse_int(it, s):
+def parse_int(it, s, base=10):
     """int(str) for structured strings: FmtInt -> its term; otherwise literal parse."""
     parts = s.parts
+    zs = s.z3()
+    if zs is not None and not s.is_literal():
+        from . import zstr
+
+        _assume(it, "int(s%s) raises ValueError exactly outside the literal grammar [ws][+-]%sdigits(_digits)*[ws] over Unicode decimal digits" % (", 16" if base == 16 else "", "(0x)?hex" if base == 16 else ""))
+        if not it.path.branch(z3.InRe(zs, zstr.int_literal_re(base))):
+            raise PyRaise(ValueError, ("invalid literal for int() with base %d" % base,))
+        v = it.path.fresh("parsed_int", z3.IntSort())
+        if base == 10:
+            it.path.assume(z3.Implies(z3.InRe(zs, z3.Plus(z3.Range("0", "9"))), v == z3.StrToInt(zs)))
+        return v
     if len(parts) == 1 and isinstance(parts[0], FmtInt):
         _assume(it, "int(str(n)) == n (decimal rendering is inverse to parsing)")
         return parts[0].term
@@ -85,6 +98,14 @@ def m_float(it, args, kw):
             return parts[0].realval
         if v.is_literal():
             return it.native(float, [v.literal()], {})
+        zs = v.z3()
+        if zs is not None:
+            from . import zstr
+
+            _assume(it, "float(s) raises ValueError exactly outside Python's float literal grammar")
+            if not it.path.branch(z3.InRe(zs, zstr.float_literal_re())):
+                raise PyRaise(ValueError, ("could not convert string to float",))
+            return it.path.fresh("parsed_float", z3.RealSort())
         raise Unsupported("float() of %r" % (v,))
     if v is None:
         raise PyRaise(TypeError, ("float() argument must be a string or a real number",))
@@ -214,8 +235,9 @@ def m_len(it, args, kw):
     if isinstance(v, SStr):
         if v.is_literal():
             return len(v.literal())
-        if hasattr(v, "length_term"):
-            return v.length_term
+        zs = v.z3()
+        if zs is not None:
+            return z3.Length(zs)
         raise Unsupported("len of symbolic string")
     if hasattr(v, "sym_len"):
         return v.sym_len(it)
